@@ -690,6 +690,16 @@ pub fn run_arm(w: &World, entry: u64, allowed: &[(u64, u64)], stop_at: Option<u6
                     }
                     ex.written |= 1 << rd;
                     pc += 4;
+                } else if hw1 & 0xF800 == 0xF000 && hw2 & 0xD000 == 0x9000 {
+                    // B.W (encoding T4): stays in Thumb state
+                    let sbit = (hw1 >> 10) & 1;
+                    let j1 = (hw2 >> 13) & 1;
+                    let j2 = (hw2 >> 11) & 1;
+                    let i1 = !(j1 ^ sbit) & 1;
+                    let i2 = !(j2 ^ sbit) & 1;
+                    let imm = (sbit << 24) | (i1 << 23) | (i2 << 22) | ((hw1 & 0x3FF) << 12) | ((hw2 & 0x7FF) << 1);
+                    let off = sext(imm as u64, 25) as i32;
+                    pc = pcv.wrapping_add(off as u32) as u64;
                 } else if hw1 == 0xF3AF && hw2 == 0x8000 {
                     pc += 4; // NOP.W
                 } else {
